@@ -31,6 +31,70 @@ def _ctor_resolver(spec_entries, modname):
     return node_ctor
 
 
+TOKEN_SOURCES = {"_peek", "_advance", "_accept", "_expect", "next", "peek"}
+
+
+def _token_equality(ctx, report):
+    """A Token carries its line, column and file name and is a dataclass: `tok == other` compares those too.  Tokens may be tested for
+    None / identity and their .type / .value compared; comparing whole tokens for (in)equality or membership lets layout decide a branch."""
+    mod = S.module("c_parser")
+    tok_attrs = set()
+    funcs = [(f"CParser.{n}", f) for n, f in mod.methods("CParser").items()] + [(f"_TokenStream.{n}", f) for n, f in (mod.methods("_TokenStream").items() if "_TokenStream" in mod.classes else [])]
+
+    def is_tok(e, names):
+        if isinstance(e, ast.Call) and isinstance(e.func, ast.Attribute) and e.func.attr in TOKEN_SOURCES:
+            return True
+        if isinstance(e, ast.Name):
+            return e.id in names
+        if isinstance(e, ast.Attribute) and isinstance(e.value, ast.Name) and e.value.id == "self":
+            return e.attr in tok_attrs
+        if isinstance(e, ast.NamedExpr):
+            return is_tok(e.value, names)
+        if isinstance(e, ast.IfExp):
+            return is_tok(e.body, names) or is_tok(e.orelse, names)
+        return False
+    local = {}
+    for _ in range(4):                      # names and self attributes that hold tokens (to a fixed point)
+        before = (len(tok_attrs), sum(len(v) for v in local.values()))
+        for q, fn in funcs:
+            names = local.setdefault(q, set())
+            for n in ast.walk(fn):
+                tv = None
+                if isinstance(n, ast.Assign):
+                    tv = (n.targets, n.value)
+                elif isinstance(n, ast.AnnAssign) and n.value is not None:
+                    tv = ([n.target], n.value)
+                elif isinstance(n, ast.NamedExpr):
+                    tv = ([n.target], n.value)
+                if tv and is_tok(tv[1], names):
+                    for t in tv[0]:
+                        if isinstance(t, ast.Name):
+                            names.add(t.id)
+                        elif isinstance(t, ast.Attribute) and isinstance(t.value, ast.Name) and t.value.id == "self":
+                            tok_attrs.add(t.attr)
+        if before == (len(tok_attrs), sum(len(v) for v in local.values())):
+            break
+    ncmp = 0
+    for q, fn in funcs:
+        names = local.get(q, set())
+        for n in ast.walk(fn):
+            if isinstance(n, ast.Compare):
+                operands = [n.left] + list(n.comparators)
+                for i, op in enumerate(n.ops):
+                    a, b = operands[i], operands[i + 1]
+                    if not (is_tok(a, names) or is_tok(b, names)):
+                        continue
+                    ncmp += 1
+                    none = any(isinstance(x, ast.Constant) and x.value is None for x in (a, b))
+                    ok = isinstance(op, (ast.Is, ast.IsNot)) or none
+                    ctx.oblige("R-C17.1", f"c_parser:{q}:token-compare:{n.lineno}:{n.col_offset}", ok, nontrivial=False)
+                    if not ok:
+                        report("R-C17.1", mod, q, n, "token-compare", f"`{S.unparse(n)}` compares whole Token objects: a Token is a dataclass whose equality includes line, column and file name, so two different tokens "
+                               "that line markers give the same coordinates compare equal (and the same token compared after a re-lex may not): the layout of the input decides this branch")
+    if ncmp < 5:
+        raise AnalysisError(f"only {ncmp} comparisons involving tokens found in the parser (the token sources of R-C17.1 are stale)")
+
+
 def check(ctx):
     ctx.rule("R-C17.1", "parser / transforms: position information flows only into coord arguments, .coord stores and error messages")
     ctx.rule("R-C17.2", "lexer: line / file bookkeeping flows only into token positions and error reports; layout paths write only cursor and position state")
@@ -67,6 +131,7 @@ def check(ctx):
         for q, node, kind, msg in an.violations:
             report("R-C17.1", mod, q, node, kind, msg)
         ctx.info.setdefault("tainted_returns", {})[modname] = {q: repr(v) for q, v in an.ret.items() if v != TA.U}
+    _token_equality(ctx, report)
     ctx.require_instances("R-C17.1", 400)
     # the analysis must have seen the coordinate constructor as a source (anchor check)
     pm = S.module("c_parser")
